@@ -61,6 +61,12 @@ def generate(rng, tier, ctx):
             k = rng.choice([1, 3, 31, 32, 33, 63, 64, 65, 127, 128, 200, rng.randint(1, 300)]); chunks.append(msg[i:i + k]); i += k
         if rng.random() < 0.3: chunks.insert(rng.randint(0, len(chunks)), b'')
         cases.append(('sha256 ' + ' '.join(hx(c) for c in chunks) if chunks else 'sha256', ('sha256', 'len%d' % min(L, 400))))
+    # long SINGLE writes (the whole-block path of secp256k1_sha256_write hands many blocks to the compression function at once):
+    # block counts around powers of two, alone and after a short first write that leaves the buffer partly filled
+    for nb in [255, 256, 257, 1023, 1024, 1025, 2048, 4097] + ([16383, 16384, 65535, 65536, 65537] if tier == 'thorough' else []):
+        for head, extra in ((0, 0), (0, 17), (5, 64 - 5), (63, 2)):
+            msg = rng.bytes(head + 64 * nb + extra)
+            cases.append(('sha256 ' + ' '.join(hx(c) for c in (msg[:head], msg[head:]) if c), ('sha256', 'single-write-%dblocks' % min(nb, 1025))))
     for L in [0, 1, 31, 32, 33, 63, 64, 65, 100, 999, 1000, 1001, 1500] + [rng.randint(0, 3000) for _ in range(20 * n)]:
         tag = rng.bytes(rng.choice([0, 1, 13, 16, 32, 64, 65, 100]))
         cases.append(('tagged_sha256 %s %s' % (hx(tag), hx(rng.bytes(L))), ('tagged', 'len%d' % min(L, 400))))
